@@ -543,7 +543,7 @@ def draw_scalar(d, i, kind, vhi, tag=''):
         v = d.pick(STRINGS, nm)
         return CharacterString(v), v
     if kind == 'e':
-        v = d.int(0, 3, nm)
+        v = d.int(0, 1, nm)         # the two values BACnetPolarity defines (it is not extensible)
         return Enumerated(v), v
     if kind == 'b':
         v = d.bool(nm)
@@ -613,10 +613,6 @@ def draw_value(d, i, spec, icls, kind, vhi, nwrong):
         return Any(Unsigned(n)), True, True, n, 'length %d' % n
     a, c = draw_scalar(d, i, ek, vhi)
     return Any(a), True, True, c, 'value'
-
-
-def fits_target(spec, fits):
-    return fits
 
 
 # ---------------------------------------------------------------- the steps
@@ -765,17 +761,27 @@ def step_rpm(d, i, env, focus, level, nrefs):
     d.note(**{'step%d' % i: ['rpm', specs, brief(out)]})
 
 
-@meta(bounds="a device stack (ReadProperty/WriteProperty, ReadPropertyMultiple services) holding three vendor objects: "
-             "scalars (writable Unsigned, CharacterString, Enumerated, Boolean, Real; a read-only, an optional present and "
-             "an optional absent property), arrays (writable ArrayOf Unsigned and ArrayOf CharacterString, a read-only array), "
-             "lists (writable ListOf Unsigned); a client stack issues len(ops) requests, each with opcode symbolic in the "
-             "step's set (R ReadProperty, W WriteProperty, M ReadPropertyMultiple); target symbolic over the focus object's "
-             "properties, an undeclared property, an unknown object; array index none / 0 / 1..5 / >= 2^24 (value symbolic); "
-             "written value of the right datatype (Unsigned 0..vhi symbolic, strings and reals from 3 values, enumerated 0..3, "
-             "boolean; sequences of 0..2 elements; new array length 0..3) or per `kinds` of another datatype / Null / two "
-             "values / none; priority none or 1..16 symbolic; initial Unsigned contents symbolic",
-      outside="more requests per sequence; other objects than the three; segmented answers; WritePropertyMultiple "
-              "(the library has no handler); constructed property values (object level: prop_obj)",
+@meta(bounds="a device stack (ReadProperty/WriteProperty and ReadPropertyMultiple services) holding three vendor-999 objects: "
+             "S scalars (writable Unsigned, CharacterString, Enumerated, Boolean, Real; a read-only, an optional present and "
+             "an optional absent property), A arrays (writable ArrayOf Unsigned and ArrayOf CharacterString of 2 elements, a "
+             "read-only array), L lists (writable ListOf Unsigned) - and its device object; a client stack issues len(ops) "
+             "requests (quick: 1-2, thorough: 1-3; the instance label spells the sequence), each with the opcode symbolic in "
+             "the step's set (R ReadProperty, W WriteProperty, M ReadPropertyMultiple with nrefs references, each a property "
+             "or one of all/required/optional, plus a second object in the same request); target symbolic over `level`: -1 "
+             "the focus object's main properties, 0 a few properties + an undeclared property + an unknown object, 1 every "
+             "declared property, 2 also a proprietary property number and the value-less Property_List; array index none / 0 "
+             "/ 1..5 symbolic (n <= 4, so n+1 is inside) / 2^32-1, on non-arrays none / 0..5 symbolic / 2^32-1; written value "
+             "per `kinds`: right datatype (Unsigned 0..vhi symbolic, strings and reals from 3 values, enumerated 0..1, "
+             "boolean; whole arrays / lists of 0..2 elements; new array length 0..3), wrong = another primitive datatype "
+             "(nwrong alternatives) or a sequence holding an element of another datatype at a symbolic position, null, "
+             "multi = two values where one is expected, empty = none; priority none / 1..16 symbolic (`prio`); the initial "
+             "Unsigned contents of the focus object symbolic.  After every request the answer on the LAN is compared with a "
+             "dictionary model, every property of every object (object-level ReadProperty) with the picture before, and - "
+             "follow >= 1 - an acknowledged write is read back by ReadProperty (and ReadPropertyMultiple, follow = 2)",
+      outside="longer sequences; targets outside `level` in the multi-request instances; other objects than these; segmented "
+              "answers; WritePropertyMultiple (the library has no handler); constructed property values over the wire "
+              "(object level: prop_obj); a symbolic 4-octet array index (one concrete huge index instead: two codecs make "
+              "the solver spend 15 s per path on it); new array lengths above 3 (the library allocates what is asked for)",
       stubs=STUBS)
 def rw_wire(d, focus, ops, kinds=('right',), level=1, vhi=255, nwrong=1, follow=2, nrefs=1, prio='both'):
     init = dict(presentValue=7, controlGroups=[10, 20], memberOf=[5, 6])
@@ -1004,13 +1010,17 @@ def gen_right(d, dt, k, nm, sym=True):
         # is_valid forks on every symbolic bit: one symbolic bit, the others concrete
         return ([d.int(0, 1, nm + '_0')] + [(j % 2) for j in range(1, n)]) if sym else [1] * n
     if k == 'enum':
+        # defined values only, by name and by number (an implementation may refuse undefined ones)
         names = sorted(dt.enumerations)
-        choices = [4000]                        # a number outside the table (proprietary range)
+        choices = [0]
         if names:
-            choices = [names[0], dt.enumerations[names[-1]], 4000]
+            choices = [names[0], dt.enumerations[names[-1]]]
         return d.pick(choices, nm) if sym else choices[0]
-    if k == 'date' or k == 'time':
-        return tuple(d.int(0, 255, nm + '_%d' % j) for j in range(4)) if sym else (1, 2, 3, 4)
+    if k == 'date':         # (year - 1900, month, day, day of week unspecified)
+        return (d.int(0, 254, nm + '_y'), d.int(1, 12, nm + '_m'), d.int(1, 28, nm + '_d'), 255) if sym else (124, 2, 3, 255)
+    if k == 'time':
+        return (d.int(0, 23, nm + '_h'), d.int(0, 59, nm + '_m'), d.int(0, 59, nm + '_s'), d.int(0, 99, nm + '_c')) if sym \
+            else (1, 2, 3, 4)
     if k == 'objid':
         return ('analogValue', d.int(0, 4194302, nm)) if sym else ('analogValue', 9)
     if k == 'anyatomic':
@@ -1140,8 +1150,8 @@ def check_array_reads(d, obj, pid, want, sig):
              "property as declared (read-only ones: the write is refused) and - symbolic selector - as a writable property "
              "of the same datatype added with Object.add_property; arrays start with 2 elements (fixed-length ones with "
              "their length), lists with 2; ONE WriteProperty(direct=False): value of the datatype (contents symbolic: "
-             "integers over the datatype's whole range, octet strings 0..2 octets, bits, date/time fields 0..255; strings, "
-             "reals, enumeration values from 2-3 representatives), of another datatype, a sequence holding one element of "
+             "integers over the datatype's whole range, octet strings 0..2 octets, one bit of a bit string, every valid date "
+             "up to day 28 and every time of day; strings, reals, defined enumeration values from 2 representatives), of another datatype, a sequence holding one element of "
              "another datatype (position symbolic); array index none / 0 (new length 0..3) / 1..n+1 symbolic / 2^32-1; "
              "priority none or 1..16 symbolic; then reads of the property, and for arrays of every index class",
       outside="objectIdentifier (prop_oid); a value that is not a sequence at all written to a whole array (prop_array_scalar); "
@@ -1377,8 +1387,22 @@ QUICK_TYPES = ['analogValue', 'binaryOutput', 'multiStateValue', 'channel', 'loa
                'notificationClass', 'device']
 
 
-def _wire(out, label, budget, **params):
-    out.append(Inst(rw_wire, params, budget=budget, path_timeout=120, label=label))
+# CPU-second caps per instance: about four times what an idle core needs (measured), so that a loaded machine
+# does not turn an obligation inconclusive
+QUICK_CAPS = {"S: write": 300, "A: write": 300, "A: write, rpm": 400, "A: write, read": 250, "S: write, read|rpm": 250}
+THOROUGH_CAPS = {
+    "S: rpm x2": 2600, "A: rpm x2": 4500, "L: rpm x2": 2000, "S: write": 400, "A: write": 1000, "L: write": 400,
+    "S: write, read": 700, "S: write, rpm": 1600, "S: write, write": 300, "S: read|rpm, any": 350,
+    "A: write, read": 1600, "A: write, rpm": 3000, "A: write, write": 1100, "A: read|rpm, any": 1200,
+    "L: write, read": 250, "L: write, rpm": 600, "L: write, write": 300, "L: read|rpm, any": 200,
+    "S: write, write, read": 300, "S: write, read, write|rpm": 500, "A: write, write, read": 2400,
+    "A: write, read, write|rpm": 4000, "L: write, write, read": 200, "L: write, read, write|rpm": 250,
+}
+
+
+def _wire(out, label, tier, **params):
+    caps, default = (QUICK_CAPS, 150) if tier == "quick" else (THOROUGH_CAPS, 200)
+    out.append(Inst(rw_wire, params, budget=caps.get(label, default), path_timeout=120, label=label))
 
 
 def instances(tier):
@@ -1387,7 +1411,7 @@ def instances(tier):
     RW = ['right', 'wrong']
     RWN = ['right', 'wrong', 'null']
     if q:
-        B = 400
+        B = tier
         # ---- one request, every target / index class / value kind
         for f in ('S', 'A', 'L'):
             _wire(out, "%s: read" % f, B, focus=f, ops=['R'], level=1)
@@ -1403,13 +1427,16 @@ def instances(tier):
         _wire(out, "A: write, rpm", B, focus='A', ops=['W', 'M'], level=-1, kinds=['right'], prio='none', follow=0)
         _wire(out, "S: write, read|rpm", B, focus='S', ops=['W', 'RM'], level=-1, kinds=['right'], prio='none', follow=0)
         _wire(out, "L: write, read|rpm", B, focus='L', ops=['W', 'RM'], level=-1, kinds=['right'], prio='none', follow=0)
-        out.append(Inst(plist_wire, dict(ops='RMSW'), budget=B))
+        # ---- two references in one ReadPropertyMultiple
+        _wire(out, "S: rpm x2", B, focus='S', ops=['M'], level=-1, nrefs=2)
+        _wire(out, "L: rpm x2", B, focus='L', ops=['M'], level=-1, nrefs=2)
+        out.append(Inst(plist_wire, dict(ops='RMSW'), budget=200))
     else:
-        B = 3000
+        B = tier
         big = dict(vhi=70000, nwrong=4)
         for f in ('S', 'A', 'L'):
             _wire(out, "%s: read" % f, B, focus=f, ops=['R'], level=2, **big)
-            _wire(out, "%s: rpm x2" % f, B, focus=f, ops=['M'], level=0 if f != 'L' else 1, nrefs=2, **big)
+            _wire(out, "%s: rpm x2" % f, B, focus=f, ops=['M'], level=0, nrefs=2, **big)
             _wire(out, "%s: rpm" % f, B, focus=f, ops=['M'], level=2, nrefs=1, **big)
             _wire(out, "%s: write" % f, B, focus=f, ops=['W'], level=2, kinds=RWN if f != 'A' else RW, prio='both', **big)
         _wire(out, "A: write null", B, focus='A', ops=['W'], level=1, kinds=['null'], prio='both')
@@ -1427,13 +1454,13 @@ def instances(tier):
             _wire(out, "%s: write, write, read" % f, B, focus=f, ops=['W', 'W', 'R'], level=-1, kinds=['right'], prio='none', follow=0)
             _wire(out, "%s: write, read, write|rpm" % f, B, focus=f, ops=['W', 'R', 'WM'], level=-1, kinds=['right'],
                   prio='none', follow=0)
-        out.append(Inst(plist_wire, dict(ops='RMSW'), budget=600))
+        out.append(Inst(plist_wire, dict(ops='RMSW'), budget=300))
     # ---- object level
     types = QUICK_TYPES if q else std_types()
     for t in types:
-        out.append(Inst(prop_obj, dict(otypes=[t]), budget=120 if q else 600, label=t))
-    out.append(Inst(prop_obj, dict(otypes=types, scalar_to_array=True, variant="writable"), budget=200 if q else 900,
+        out.append(Inst(prop_obj, dict(otypes=[t]), budget=120, label=t))
+    out.append(Inst(prop_obj, dict(otypes=types, scalar_to_array=True, variant="writable"), budget=100 if q else 300,
                     label="array-takes-non-sequence"))
-    out.append(Inst(prop_obj, dict(otypes=types, only=['objectIdentifier'], variant="declared"), budget=100 if q else 300,
+    out.append(Inst(prop_obj, dict(otypes=types, only=['objectIdentifier'], variant="declared"), budget=60,
                     label="objectIdentifier"))
     return out
